@@ -192,6 +192,9 @@ type checkResult struct {
 	exit       int
 }
 
+// genBudget: wall-clock budget for generating one function's verification conditions.
+var genBudget = 600 * time.Second
+
 func cmdCheck(args []string) int {
 	fs := flag.NewFlagSet("check", flag.ExitOnError)
 	var o checkOpts
@@ -311,6 +314,9 @@ func runCheck(o checkOpts) *checkResult {
 	for _, sf := range specs {
 		if strings.HasPrefix(sf.Name, "extern:") {
 			key := externScope(sf.File, o.repo) + "|" + strings.TrimPrefix(sf.Name, "extern:")
+			if sf.Func != "" {
+				key = externScope(sf.File, o.repo) + "#" + sf.Func + "|" + strings.TrimPrefix(sf.Name, "extern:")
+			}
 			w.externFrames[key] = sf.Reason
 			if sf.Lemma {
 				w.externFresh[key] = true
@@ -320,6 +326,12 @@ func runCheck(o checkOpts) *checkResult {
 			}
 			if len(sf.PTypes) == 1 && sf.PTypes[0] == "old" {
 				w.externOld[key] = true
+			}
+			if len(sf.PTypes) == 1 && sf.PTypes[0] == "havoc" {
+				w.externHavoc[key] = true
+			}
+			if len(sf.PTypes) == 1 && sf.PTypes[0] == "writes-args" {
+				w.externHavoc[key+"#args"] = true
 			}
 			continue
 		}
@@ -398,7 +410,17 @@ func runCheck(o checkOpts) *checkResult {
 			defer gwg.Done()
 			sem <- struct{}{}
 			defer func() { <-sem }()
-			resArr[i] = w.verifyFunction(ct)
+			// generation watchdog: a function whose verification conditions cannot be generated within the
+			// budget (e.g. a constant-trip loop without invariant that unrolls into an exponential term) is
+			// reported as refused instead of hanging the check
+			done := make(chan *FuncResult, 1)
+			go func() { done <- w.verifyFunction(ct) }()
+			select {
+			case r := <-done:
+				resArr[i] = r
+			case <-time.After(genBudget):
+				resArr[i] = &FuncResult{Contract: ct, Err: fmt.Sprintf("outside-subset: generating the verification conditions took more than %s", genBudget)}
+			}
 		}(i, ct)
 	}
 	gwg.Wait()
@@ -611,6 +633,9 @@ func writeEvidence(w *World, o checkOpts, seed int, recs []oblRecord, samples []
 		fns = append(fns, ct.FullName())
 	}
 	for _, r := range results {
+		if r.Ctx == nil {
+			continue
+		}
 		for _, n := range r.Ctx.notes {
 			notes[r.Contract.FullName()+": "+n] = true
 		}
@@ -672,6 +697,9 @@ func cmdDump(args []string) int {
 	for _, sf := range specs {
 		if strings.HasPrefix(sf.Name, "extern:") {
 			key := externScope(sf.File, *repo) + "|" + strings.TrimPrefix(sf.Name, "extern:")
+			if sf.Func != "" {
+				key = externScope(sf.File, *repo) + "#" + sf.Func + "|" + strings.TrimPrefix(sf.Name, "extern:")
+			}
 			w.externFrames[key] = sf.Reason
 			if sf.Lemma {
 				w.externFresh[key] = true
@@ -681,6 +709,12 @@ func cmdDump(args []string) int {
 			}
 			if len(sf.PTypes) == 1 && sf.PTypes[0] == "old" {
 				w.externOld[key] = true
+			}
+			if len(sf.PTypes) == 1 && sf.PTypes[0] == "havoc" {
+				w.externHavoc[key] = true
+			}
+			if len(sf.PTypes) == 1 && sf.PTypes[0] == "writes-args" {
+				w.externHavoc[key+"#args"] = true
 			}
 			continue
 		}
